@@ -3,6 +3,8 @@ package props
 import (
 	"bytes"
 	"context"
+	"crypto/sha256"
+	"encoding/hex"
 	"encoding/json"
 	"fmt"
 	"hash/fnv"
@@ -10,6 +12,7 @@ import (
 	"testing"
 	"time"
 
+	"github.com/btcsuite/btcd/btcec/v2/schnorr"
 	"github.com/coder/websocket"
 	"github.com/high-moctane/mocrelay"
 	"github.com/high-moctane/mocrelay/verifsim"
@@ -187,6 +190,17 @@ func genWSMsg(t *rapid.T, c *WSCase, i int) *simrt.Msg {
 	}
 }
 
+// offCurvePubkey is a 32-byte value that is not the x coordinate of a point of
+// secp256k1 (found by search at start-up).
+var offCurvePubkey = func() string {
+	for i := 0; ; i++ {
+		h := sha256.Sum256([]byte(fmt.Sprintf("verif-offcurve-%d", i)))
+		if _, err := schnorr.ParsePubKey(h[:]); err != nil {
+			return hex.EncodeToString(h[:])
+		}
+	}
+}()
+
 // corrupt derives one labelled corruption of a valid message.
 func corruptFrame(t *rapid.T, m *simrt.Msg) wsFrame {
 	wire := msgWire(m)
@@ -214,7 +228,7 @@ func corruptFrame(t *rapid.T, m *simrt.Msg) wsFrame {
 		return string(b)
 	}
 	generic := []string{"binary", "invalid-utf8", "not-json", "unknown-label", "wrong-arity", "label-not-string", "trailing-garbage"}
-	evOnly := []string{"uppercase-id", "short-id", "kind-negative", "kind-too-large", "kind-string", "altered-content", "altered-id", "altered-pubkey", "altered-sig", "forged-sig", "missing-sig", "tags-not-array", "extra-member"}
+	evOnly := []string{"pubkey-off-curve", "sig-r-out-of-range", "uppercase-id", "short-id", "kind-negative", "kind-too-large", "kind-string", "altered-content", "altered-id", "altered-pubkey", "altered-sig", "forged-sig", "missing-sig", "tags-not-array", "extra-member"}
 	reqOnly := []string{"negative-since", "negative-limit", "unknown-filter-key", "filter-not-object", "subid-number", "ids-uppercase", "kinds-string"}
 	pool := append([]string{}, generic...)
 	switch m.T {
@@ -262,6 +276,25 @@ func corruptFrame(t *rapid.T, m *simrt.Msg) wsFrame {
 		e2 := simrt.EvSpec{Author: e.Author, Kind: e.Kind, CreatedAt: e.CreatedAt, Tags: e.Tags, Content: e.Content, Sign: true}
 		f.Payload = marshalNoEscape([]any{m.T, evJSON(e2.Event())})
 		f.Names = e2.Event().ID
+	case "pubkey-off-curve", "sig-r-out-of-range":
+		// id is the correct hash of the fields, so verification gets as far as
+		// parsing the key / the signature, which fails
+		e := m.Ev.Event()
+		pk, sig := e.Pubkey, e.Sig
+		if f.Kind == "pubkey-off-curve" {
+			pk = offCurvePubkey
+		} else {
+			sig = strings.Repeat("f", 64) + sig[64:]
+		}
+		tags := make([][]string, len(e.Tags))
+		for i, tg := range e.Tags {
+			tags[i] = []string(tg)
+		}
+		id := sha256.Sum256(ref.Canonical(pk, e.CreatedAt, e.Kind, tags, e.Content))
+		o := evObj()
+		o["pubkey"], o["sig"], o["id"] = pk, sig, hex.EncodeToString(id[:])
+		f.Names = o["id"].(string)
+		f.Payload = marshalNoEscape([]any{m.T, o})
 	case "kind-string":
 		o := evObj()
 		o["kind"] = "1"
@@ -353,6 +386,22 @@ func (wsEngine) Gen(t *rapid.T, tier string) any {
 		if rapid.IntRange(0, 2).Draw(t, "corrupt") == 0 {
 			c.Frames = append(c.Frames, corruptFrame(t, m))
 			continue
+		}
+		if rapid.IntRange(0, 5).Draw(t, "altered-copy") == 0 {
+			// an altered copy of an authentic event that was already accepted on
+			// this relay: same id and signature, one signed field changed
+			var prev *wsFrame
+			for j := range c.Frames {
+				if c.Frames[j].Deliverable && c.Frames[j].Msg.T == "EVENT" {
+					prev = &c.Frames[j]
+				}
+			}
+			if prev != nil {
+				o := evJSON(prev.Msg.Ev.Event())
+				o["content"] = o["content"].(string) + " (edited)"
+				c.Frames = append(c.Frames, wsFrame{Kind: "altered-copy-of-accepted", Payload: marshalNoEscape([]any{"EVENT", o}), Names: prev.Msg.Ev.Event().ID})
+				continue
+			}
 		}
 		c.Frames = append(c.Frames, wsFrame{Kind: "valid", Payload: marshalNoEscape(msgWire(m)), Deliverable: true, Msg: m})
 	}
